@@ -125,7 +125,9 @@ def check_case(case, shard):
                 shard.ok("closed_form")
                 shard.maximum("closed_form_abs_err", abs(v - ref))
         # --- zero when the tested value is the best-fit value (two-sided statistics and q/qtilde)
-        if stat in ("t", "ttilde", "q", "qtilde") and lo + 1e-3 < muhat < case["hi"] - 1e-3:
+        # the statement scopes "zero when the tested value is the best-fit value" to models with a closed form
+        # (with nuisance parameters the conditional fit may sit in another local minimum than the free fit)
+        if counting and stat in ("t", "ttilde", "q", "qtilde") and lo + 1e-3 < muhat < case["hi"] - 1e-3:
             try:
                 v0 = float(to_np(statfn(stat)(muhat, data, model, init, bounds, fixed)))
                 if not (0 <= v0 <= 1e-3):
